@@ -315,26 +315,24 @@ theorem radix_range (L : Lib) (x lg : FV) (a : Arg) :
           | inf s => simp at h
           | fin s m e => simp only at h; repeat (first | (split at h) | (simp at h))
 
-/-- C06.range_errors (toExponential), lower bound: for a finite receiver and ToInteger(arg) ≤ 20 the
-    model throws RangeError exactly when ES5 does (the missing upper bound is Dev toExponential_range). -/
-theorem toExponential_range_partial (L : Lib) (s : Bool) (m : Nat) (e : Int) (a : Arg)
-    (h20 : Spec.gtI (Spec.argInt a) 20 = false) :
+/-- C06.range_errors (toExponential): for a finite receiver, RangeError exactly when the argument is
+    defined and ToInteger(arg) ∉ [0, 20] (upper bound present since fix 94625b0). -/
+theorem toExponential_range (L : Lib) (s : Bool) (m : Nat) (e : Int) (a : Arg) :
     toExponential L (.fin s m e) a = .rangeError ↔ Spec.toExponential (.fin s m e) a = .rangeError := by
   cases a with
   | undef => simp [toExponential, Spec.toExponential, isNaN, Arg.isDefined]
   | num v =>
-    simp only [Spec.argInt, Arg.toFloat] at h20
     simp only [toExponential, Spec.toExponential, isNaN, toInteger_eq, Spec.argInt, Arg.toFloat, Arg.isDefined,
-      Spec.ltI, ofInt_zero, h20]
-    by_cases c : lt (Spec.toInteger v) zero = true <;> simp [c]
+      Spec.ltI, Spec.gtI, ofInt_zero]
+    by_cases c : lt (Spec.toInteger v) zero = true <;>
+      by_cases d : lt (ofInt 20) (Spec.toInteger v) = true <;> simp [c, d]
 
-/-- C06.range_errors (toPrecision), lower bound: finite receiver, ToInteger(arg) ≤ 21 -/
-theorem toPrecision_range_partial (L : Lib) (s : Bool) (m : Nat) (e : Int) (lg v : FV)
-    (h21 : Spec.gtI (Spec.toInteger v) 21 = false) :
+/-- C06.range_errors (toPrecision): finite receiver, RangeError exactly when ToInteger(arg) ∉ [1, 21] -/
+theorem toPrecision_range (L : Lib) (s : Bool) (m : Nat) (e : Int) (lg v : FV) :
     toPrecision L (.fin s m e) lg (.num v) = .rangeError ↔ Spec.toPrecision (.fin s m e) (.num v) = .rangeError := by
-  simp only [toPrecision, Spec.toPrecision, isNaN, toInteger_eq, Spec.ltI, ofInt_one, h21]
-  by_cases c : lt (Spec.toInteger v) one = true <;> simp [c]
-
+  simp only [toPrecision, Spec.toPrecision, isNaN, toInteger_eq, Spec.ltI, Spec.gtI, ofInt_one]
+  by_cases c : lt (Spec.toInteger v) one = true <;>
+    by_cases d : lt (ofInt 21) (Spec.toInteger v) = true <;> simp [c, d]
 
 /-! ## Number.prototype.toString(radix) on integers -/
 
@@ -1179,8 +1177,8 @@ example : Spec.toExponential (.inf false) .undef = .str (bytes "Infinity") := by
 /-- Dev toExponential_negzero: (-0).toExponential(2) -/
 example : toExponential L0 (fv 0x8000000000000000) (.num (fv 0x4000000000000000)) = .str (bytes "-0.00e+00") := by decide +kernel
 example : Spec.toExponential (fv 0x8000000000000000) (.num (fv 0x4000000000000000)) = .str (bytes "0.00e+0") := by decide +kernel
-/-- Dev toExponential_range: (1.5).toExponential(25) -/
-example : toExponential L0 (fv 0x3ff8000000000000) (.num (fv 0x4039000000000000)) = .str (bytes "1.5000000000000000000000000e+00") := by decide +kernel
+/-- former Dev toExponential_range, repaired by fix 94625b0: (1.5).toExponential(25) is a RangeError on both sides -/
+example : toExponential L0 (fv 0x3ff8000000000000) (.num (fv 0x4039000000000000)) = .rangeError := by decide +kernel
 example : Spec.toExponential (fv 0x3ff8000000000000) (.num (fv 0x4039000000000000)) = .rangeError := by decide +kernel
 /-- Dev toExponential_tie: (2.5).toExponential(0) -/
 example : toExponential L0 (fv 0x4004000000000000) (.num (fv 0)) = .str (bytes "2e+00") := by decide +kernel
@@ -1195,8 +1193,8 @@ example : Spec.toPrecision (.inf false) (.num (fv 0x4000000000000000)) = .str (b
 /-- Dev toPrecision_negzero: (-0).toPrecision(1) -/
 example : toPrecision L0 (fv 0x8000000000000000) (fv 0xfff0000000000000) (.num (fv 0x3ff0000000000000)) = .str (bytes "-0") := by decide +kernel
 example : Spec.toPrecision (fv 0x8000000000000000) (.num (fv 0x3ff0000000000000)) = .str (bytes "0") := by decide +kernel
-/-- Dev toPrecision_range: (1.5).toPrecision(30) -/
-example : toPrecision L0 (fv 0x3ff8000000000000) (fv 0x3fc68a288b60b7fc) (.num (fv 0x403e000000000000)) = .str (bytes "1.5") := by decide +kernel
+/-- former Dev toPrecision_range, repaired by fix 94625b0: (1.5).toPrecision(30) is a RangeError on both sides -/
+example : toPrecision L0 (fv 0x3ff8000000000000) (fv 0x3fc68a288b60b7fc) (.num (fv 0x403e000000000000)) = .rangeError := by decide +kernel
 example : Spec.toPrecision (fv 0x3ff8000000000000) (.num (fv 0x403e000000000000)) = .rangeError := by decide +kernel
 /-- Dev toPrecision_small: (0.00001).toPrecision(1) -/
 example : toPrecision L0 (fv 0x3ee4f8b588e368f1) (fv 0xc014000000000000) (.num (fv 0x3ff0000000000000)) = .str (bytes "1e-05") := by decide +kernel
